@@ -203,24 +203,40 @@ def run_case(seed, idx, rec):
                             rng.choice([None, 1])]
                     if len(range(dim)[slice(*cand)]) or rng.random() < 0.05:
                         break
+                if rng.random() < 0.2:
+                    # bounds that are numpy integers (results of argmax,
+                    # searchsorted, ...)
+                    cand = [None if c is None else np.int64(c) for c in cand]
+                    rec.count('slices_with_numpy_integer_bounds')
                 slices.append(cand)
         res = check_slice(cur, curk, slices, rec, case)
         if res is None:
             break
-        rec.seen((list(cur.shape), curk, slices))
+        plain = [[None if c is None else int(c) for c in sl] for sl in slices]
+        rec.seen((list(cur.shape), curk, plain))
         if idx % 499 == 0:
             rec.sample({'case': case, 'shape': list(cur.shape),
-                        'kinds': curk, 'slices': slices})
+                        'kinds': curk, 'slices': plain})
         check_squeeze(res, rec, case,
                       f'shape={list(res.shape)} kinds={curk}')
         if rng.random() < 0.25:
             # the bins of the dataset are replaced (other unit), then the
             # very same slice is asked again from the same object
-            for key in list(cur.bins):
-                cur.bins[key] = cur.bins[key] * 1000.0 + 7.0
+            newk, resk = '', curk
+            for key, kind, dim in zip(list(cur.bins), curk, cur.shape):
+                if rng.random() < 0.4:
+                    # bins of the other kind (edges <-> centres)
+                    kind = 'c' if kind == 'e' else 'e'
+                    num = dim + 1 if kind == 'e' else dim
+                    cur.bins[key] = np.arange(num, dtype=float) * 2.5 - 3.0
+                    rec.count('bins_replaced_by_the_other_kind')
+                else:
+                    cur.bins[key] = cur.bins[key] * 1000.0 + 7.0
+                newk += kind
             rec.count('same_slice_after_the_bins_changed')
-            if check_slice(cur, curk, slices, rec, case) is None:
+            if check_slice(cur, newk, slices, rec, case) is None:
                 break
+            curk = resk
         cur = res
     rec.count('evaluations')
 
